@@ -1,6 +1,7 @@
 import Driver.CronEngine
 import Driver.QueueEngine
 import Driver.SchedEngine
+import Driver.RetryEngine
 /-! `qmodel`: one operation per input line, one answer per output line. -/
 namespace Driver
 
@@ -14,6 +15,7 @@ def step (st : State) (line : String) : State × String :=
   | "cron" :: ws => let (c, out) := cronStep st.cron ws; ({ st with cron := c }, out)
   | "queue" :: ws => let (q, out) := queueStep st.queue ws; ({ st with queue := q }, out)
   | "sched" :: ws => let (q, out) := schedStep st.sched ws; ({ st with sched := q }, out)
+  | "retry" :: ws => (st, (retryStep () ws).2)
   | _ => (st, "bad-op")
 
 partial def loop (hin hout : IO.FS.Stream) (st : State) : IO Unit := do
